@@ -203,7 +203,10 @@ def run(chk, repo, tier):
         for unit_cls, unit_name in (('Photlam', 'photlam'), ('Flam', 'flam'), ('Wlam', 'wlam')):
             if unit_name == vu:
                 facts_vu[nf.attr(nf.attr(S('self'), '_valueunit'), 'name').single_atom()] = Const(vu)
-        _, vpaths, _ = analyse(repo, fto, facts=facts_vu, literal_tables=True)
+        ucls = {'photlam': 'Photlam', 'flam': 'Flam', 'wlam': 'Wlam'}[vu]
+        types_vu = {nf.attr(S('self'), '_valueunit').single_atom(): repo.cls(f'radiometry.{ucls}')} \
+            if f'radiometry.{ucls}' in {c.key for m_ in repo.modules.values() for c in m_.classes.values()} else {}
+        _, vpaths, _ = analyse(repo, fto, facts=facts_vu, types=types_vu, literal_tables=True)
         n_br, miss = 0, []
         for lp_ in [l_ for q in vpaths for l_ in q.state.loops if l_['func'] == fto.key][:1]:
             for bs in lp_['states']:
